@@ -1,4 +1,5 @@
 import CanopenModel.Sdo.Pair
+import CanopenModel.Sdo.Disturb
 import CanopenModel.Driver.C02
 import CanopenModel.Driver.C04
 import CanopenModel.Od
@@ -14,11 +15,18 @@ def showErr : CErr → String
     `set result | stored bytes | remote read | local read` -/
 def step (args : List String) : String :=
   match args with
-  | ["typed", od, idx, sub, t, v, _delivery] =>
+  | ["typed", od, idx, sub, t, v, delivery] =>
     match C02.parseOd od, idx.toNat?, sub.toNat?, C04.parseType t, C02.parseVal v with
     | some od, some idx, some sub, some t, some (some v) =>
       let n0 := C02.mkNode od []
-      let c0 : Chan (Srv × Node) := { peer := (srvInit, n0), queue := [], sent := [] }
+      let c0 : Chan (Srv × Node) :=
+        if delivery.startsWith "late" then
+          -- history: an earlier read whose response arrived only after the client had given up
+          let cd0 : Chan ((Srv × Node) × DState) :=
+            { peer := ((srvInit, n0), { idx := 0, pending := [] }), queue := [], sent := [] }
+          let cd1 := (upload (distPeer libPeer 0 .late) cd0 idx sub none 100000).1
+          { peer := cd1.peer.1, queue := cd1.queue, sent := cd1.sent }
+        else { peer := (srvInit, n0), queue := [], sent := [] }
       let (c1, r1) := remoteSet c0 idx sub t v
       let stored := match lookup (idx, sub) c1.peer.2.store with
         | some b => toHex b
